@@ -225,6 +225,7 @@ vector<string> ParameterList::getMatchingParameterNames(const string& pattern) c
     string name = parameters_[i]->getName();
 
     StringTokenizer stj(pattern, "*", true, false);
+    bool noWildcard = (stj.numberOfRemainingTokens() == 1); // the name must then equal the pattern
     size_t pos1, pos2;
     bool flag(true);
     string g = stj.nextToken();
@@ -244,7 +245,7 @@ vector<string> ParameterList::getMatchingParameterNames(const string& pattern) c
       pos1 = pos2 + g.length();
     }
     if (flag &&
-        ((g.length() == 0) || (pos1 == name.length()) || (name.rfind(g) == name.length() - g.length())))
+        ((pos1 == name.length()) || (!noWildcard && ((g.length() == 0) || (name.rfind(g) == name.length() - g.length())))))
       pNames.push_back(name);
   }
 
